@@ -419,6 +419,8 @@ void Runner::op_drain_run(Thread *t, int idx, const Op &op, OpRes &res) {
   };
   auto check_string = [&](const char *sname, char *str, int s, bool complete) {
     // final string == previous content ++ received bytes, NUL-terminated
+    if (!str && init_len > 0)
+      viol("C16", "string-sink-lost-string", sname, fmt("the caller's string (%zu bytes before the call) is NULL afterwards (drain returned %s)", init_len, en(v).c_str()), idx);
     if (!c) return;
     size_t len = str ? strlen(str) : 0;
     uint64_t streamed = 0;
